@@ -42,6 +42,17 @@ var corpusDocs = []string{
 	`{ab{... on Named{f: name} ... on Alpha{f: nick}}}`,
 	`{named{f: name ... on Named{f: nick}}}`,
 	`{named{f: nick(n:1) ... on Alpha{f: nick(n:1)}}}`,
+	// the "if" half of 5.3.2: identical arguments in another order, directly, nested, through fragments;
+	// a field reached through both of two merged fields (filed twice in the merged set)
+	`{arg(x:1,y:2) arg(y:2,x:1)}`,
+	`{arg(x:1,y:2) arg(y:2,x:1) arg(x:1,y:2)}`,
+	`{oa(x:1){arg(x:1,y:2)} oa(x:1){arg(y:2,x:1)}}`,
+	`{...A ...B} fragment A on Query {arg(x:1,y:2)} fragment B on Query {arg(y:2,x:1)}`,
+	`query($v:Int){arg(x:$v,y:2) ... on Query{arg(y:2,x:$v)}}`,
+	`{lists(g5:[[1]] g1:[1,2]) lists(g1:[1,2] g5:[[1]])}`,
+	`{alpha{...F} alpha{...F i}} fragment F on Alpha {name id}`,
+	`{alpha{...F ...G} alpha{...G}} fragment F on Alpha {...G} fragment G on Alpha {name oa{name}}`,
+	`{named{friend(n:1){...N}} named{friend(n:1){...N name}}} fragment N on Named {name friend(n:2){name}}`,
 	// nested list types: item-to-list coercion at the top only
 	`{lists(g1:[[1],[2,null],null] g2:[[1],[]] g3:[[1],null] g4:[[1]] g5:[[1]] g6:[[[1]]] g7:[[[1,null]]] g8:[[1]])}`,
 	`{lists(g1:1 g2:2 g3:3 g4:4 g5:5 g6:6 g7:7 g8:8)}`,
